@@ -1019,6 +1019,48 @@ func (e *Env) evalCall(n *ECall) (*Val, error) {
 				}
 			}
 			return nil, fmt.Errorf("$visited: loop at block %d is not a range over a map", e.blk.Index)
+		case "encoded":
+			// encoded(v): what v.Encode() returns for a url.Values v in the current state
+			a, err := e.evalArgs(n.Args)
+			if err != nil {
+				return nil, err
+			}
+			if len(a) != 1 || a[0].Typ == nil {
+				return nil, fmt.Errorf("encoded(values)")
+			}
+			if _, ok := a[0].Typ.Underlying().(*types.Map); !ok {
+				return nil, fmt.Errorf("encoded: not a map")
+			}
+			return scalar(c.valuesEncode(e.st, a[0].T, a[0].Typ), types.Typ[types.String]), nil
+		case "jsonenc":
+			// jsonenc(T, f1, f2, ...): the JSON encoding of a struct value of type T with the given scalar fields
+			if len(n.Args) < 1 {
+				return nil, fmt.Errorf("jsonenc(T, fields...)")
+			}
+			tt, _, err := e.resolveType(exprText(n.Args[0]))
+			if err != nil {
+				return nil, err
+			}
+			a, err := e.evalArgs(n.Args[1:])
+			if err != nil {
+				return nil, err
+			}
+			var sorts []Sort
+			var ts []*Term
+			ls := leavesOf(tt)
+			if len(ls) != len(a) {
+				return nil, fmt.Errorf("jsonenc: %s has %d scalar fields, %d given", tt, len(ls), len(a))
+			}
+			for i, l := range ls {
+				if a[i].T == nil || a[i].T.Sort != l.sort {
+					return nil, fmt.Errorf("jsonenc: field %d is %s, want %s", i, describe(a[i]), l.sort)
+				}
+				sorts = append(sorts, l.sort)
+				ts = append(ts, a[i].T)
+			}
+			fn := smtName("jsonenc_" + typeKey(tt))
+			c.sc.declareFun(fn, sorts, SSl)
+			return scalar(tApp(SSl, fn, ts...), types.NewSlice(types.Typ[types.Byte])), nil
 		case "addr":
 			// addr(p.f): the address of struct-typed field f of object p (e.g. a mutex)
 			if len(n.Args) != 1 {
@@ -1145,6 +1187,7 @@ func (e *Env) evalCall(n *ECall) (*Val, error) {
 				if err != nil {
 					return nil, err
 				}
+				a = e.coerceArgs(f.Type().(*types.Signature), a)
 				a = c.packVariadic(f.Type().(*types.Signature), a)
 				return c.pureFuncApp(f, nil, a)
 			}
@@ -1162,6 +1205,8 @@ func (e *Env) evalCall(n *ECall) (*Val, error) {
 							if err != nil {
 								return nil, err
 							}
+							a = e.coerceArgs(f.Type().(*types.Signature), a)
+							a = c.packVariadic(f.Type().(*types.Signature), a)
 							return c.pureFuncApp(f, nil, a)
 						}
 					}
@@ -1205,6 +1250,25 @@ func (e *Env) evalCall(n *ECall) (*Val, error) {
 		return c.pureMethodApp(e.st, m, recv, a)
 	}
 	return nil, fmt.Errorf("unsupported call expression")
+}
+
+// coerceArgs loads struct values for parameters of struct type when the contract expression produced the
+// address of the (sub)object.
+func (e *Env) coerceArgs(sig *types.Signature, args []*Val) []*Val {
+	out := append([]*Val{}, args...)
+	for i := 0; i < sig.Params().Len() && i < len(out); i++ {
+		pt := sig.Params().At(i).Type()
+		if _, isStruct := pt.Underlying().(*types.Struct); !isStruct || isOpaqueStruct(pt) {
+			continue
+		}
+		a := out[i]
+		if a.T != nil && a.Typ != nil {
+			if p, ok := a.Typ.Underlying().(*types.Pointer); ok && types.Identical(p.Elem(), pt) {
+				out[i] = e.c.loadObj(e.st, a.T, pt)
+			}
+		}
+	}
+	return out
 }
 
 func exprText(x Expr) string {
